@@ -4,6 +4,7 @@ import (
 	"encoding/json"
 	"fmt"
 	"regexp"
+	"time"
 
 	pf "github.com/weedbox/pokerface"
 	"github.com/weedbox/pokerface/pot"
@@ -95,6 +96,7 @@ type Hand struct {
 	Diverged bool                        // replay: recorded choices no longer fit the engine's state
 	StopAt   func(gs *pf.GameState) bool // optional: stop driving when this holds (prefix-only checks)
 	lastErr  error                       // result of the last operation
+	OnHang   func(v *vlib.Violation)     // C06: called when an engine operation never returns
 	cur      *pf.GameState               // copy of the state after the last operation
 	policy   string
 	// facts about the hand collected for evidence
@@ -238,6 +240,28 @@ func gameAction(g pf.Game, a string, x int64) error {
 	return fmt.Errorf("harness: unknown action %q", a)
 }
 
+// watchedApply is used by C06 only: an engine operation that does not return is
+// the strongest way of not finishing. Operations take microseconds; one that has
+// not returned after 30 seconds (the machine may be busy) never will. The
+// goroutine cannot be stopped, so the caller reports and ends the process.
+func watchedApply(g pf.Game, op Op) (err error, pan interface{}, hung bool) {
+	type res struct {
+		err error
+		pan interface{}
+	}
+	ch := make(chan res, 1)
+	go func() {
+		e, p := safeApply(g, op)
+		ch <- res{e, p}
+	}()
+	select {
+	case r := <-ch:
+		return r.err, r.pan, false
+	case <-time.After(30 * time.Second):
+		return nil, nil, true
+	}
+}
+
 func safeApply(g pf.Game, op Op) (err error, pan interface{}) {
 	defer func() {
 		if e := recover(); e != nil {
@@ -251,7 +275,23 @@ const hardStepLimit = 4000
 
 // do executes one operation and shows it to the monitors.
 func (h *Hand) do(op Op, probe bool, pre *pf.GameState) (*pf.GameState, *vlib.Violation) {
-	err, pan := safeApply(h.G, op)
+	var err error
+	var pan interface{}
+	if h.Prop == "C06" {
+		var hung bool
+		err, pan, hung = watchedApply(h.G, op)
+		if hung {
+			op.Res = "NEVER RETURNED"
+			h.Ops = append(h.Ops, op)
+			v := vlib.V("C06", "operation-never-returns/"+op.K+":"+op.A, "%s had not returned after 30 s (%s)", op, h.Cfg.Short())
+			if h.OnHang != nil {
+				h.OnHang(v) // writes the replay file and ends the process
+			}
+			return nil, v
+		}
+	} else {
+		err, pan = safeApply(h.G, op)
+	}
 	if pan != nil {
 		op.Res = fmt.Sprintf("PANIC: %v", pan)
 		h.Ops = append(h.Ops, op)
@@ -296,8 +336,7 @@ func (h *Hand) Run(ch Chooser) *vlib.Violation {
 // Begin starts the game and puts the generated deck in place.
 func (h *Hand) Begin() *vlib.Violation {
 	h.Facts = map[string]bool{}
-	g := pf.NewPokerFace().NewGame(h.Cfg.Options())
-	h.G = g
+	var g pf.Game
 	var startErr error
 	var pan interface{}
 	func() {
@@ -306,8 +345,19 @@ func (h *Hand) Begin() *vlib.Violation {
 				pan = e
 			}
 		}()
+		if pre := h.Cfg.Prelude; pre != nil {
+			// the same game object has played (part of) another hand before and is
+			// given new options: nothing of the earlier hand may show through
+			g = pf.NewPokerFace().NewGame(pre.Options())
+			playPassively(g, pre, h.Cfg.PreludeSteps)
+			g.ApplyOptions(h.Cfg.Options())
+			h.Facts["reused-game-object"] = true
+		} else {
+			g = pf.NewPokerFace().NewGame(h.Cfg.Options())
+		}
 		startErr = g.Start()
 	}()
+	h.G = g
 	if pan != nil || startErr != nil {
 		if h.Prop == "C06" {
 			return vlib.V("C06", "start-refused", "Start() of an acceptable configuration (%s) failed: err=%v panic=%v", h.Cfg.Short(), startErr, pan)
@@ -335,6 +385,53 @@ func (h *Hand) Begin() *vlib.Violation {
 		}
 	}
 	return nil
+}
+
+// playPassively drives an earlier hand on a game object: the expected table steps,
+// and at decision points the first of check / call / pass / fold that is offered
+// (every third decision an all-in, so that folded and all-in seats are left behind).
+func playPassively(g pf.Game, c *Cfg, steps int) {
+	if g.Start() != nil {
+		return
+	}
+	copy(g.GetState().Meta.Deck, c.Deck)
+	for i := 0; i < steps && g.GetEvent() != "GameClosed"; i++ {
+		gs := g.GetState()
+		switch gs.Status.CurrentEvent {
+		case "ReadyRequested":
+			g.ReadyForAll()
+		case "AnteRequested":
+			g.PayAnte()
+		case "BlindsRequested":
+			g.PayBlinds()
+		case "RoundClosed":
+			g.Next()
+		case "RoundStarted":
+			aa := gs.Players[gs.Status.CurrentPlayer].AllowedActions
+			var err error
+			switch {
+			case hasStr(aa, "pass"):
+				err = g.Pass()
+			case i%3 == 2 && hasStr(aa, "allin"):
+				err = g.Allin()
+			case i%5 == 4 && hasStr(aa, "fold"):
+				err = g.Fold()
+			case hasStr(aa, "check"):
+				err = g.Check()
+			case hasStr(aa, "call"):
+				err = g.Call()
+			case hasStr(aa, "fold"):
+				err = g.Fold()
+			default:
+				err = g.Allin()
+			}
+			if err != nil {
+				return
+			}
+		default:
+			return
+		}
+	}
 }
 
 // StepOnce performs the probes and the one step of the current wait point.
